@@ -372,8 +372,12 @@ fn trees(thorough: bool) -> Vec<Node> {
     out
 }
 
-fn drain_case(t: &Node) -> (u64, String, Vec<Violation>) {
-    let yaml = format!("---\ndhcp-policies:\n{}", t.yaml(4, true));
+/// `outer`: the same tree below a top-level `addresses: [192.0.2.0/27]`, whose implied pool (hosts
+/// minus the server's address minus every address named in a policy) is what a request inherits
+/// before the written policies are looked at.  A policy that names addresses replaces it -- also
+/// when nothing of what it names is left for this client.
+fn drain_case(&(ref t, outer): &(Node, bool)) -> (u64, String, Vec<Violation>) {
+    let yaml = format!("---\n{}dhcp-policies:\n{}", if outer { "addresses: [192.0.2.0/27]\n" } else { "" }, t.yaml(4, true));
     let case = json!({"engine":"c02","part":"drain","yaml":yaml});
     let conf = match panics::catch(|| erbium::config::verif_load_config_from_string(&yaml)) {
         Ok(Ok(c)) => c,
@@ -387,7 +391,13 @@ fn drain_case(t: &Node) -> (u64, String, Vec<Violation>) {
     let mut shape = String::new();
     crate::common::clock::set_secs(crate::ehist::NOW0 as u64);
     for mac in [M1, M2, M3] {
-        let want: Option<BTreeSet<u8>> = if t.applies(&mac, true) { t.pool_for(&mac, None) } else { None };
+        let inherited: Option<BTreeSet<u8>> = if outer {
+            let named = t.all_added();
+            Some((2u8..=30).filter(|a| !named.contains(a)).collect())
+        } else {
+            None
+        };
+        let want: Option<BTreeSet<u8>> = if t.applies(&mac, true) { t.pool_for(&mac, inherited) } else { inherited };
         let mut p = pool::Pool::new_in_memory().expect("pool");
         let mut got: BTreeSet<u8> = BTreeSet::new();
         let mut err = String::new();
@@ -437,11 +447,11 @@ fn drain_case(t: &Node) -> (u64, String, Vec<Violation>) {
             vs.push(Violation::new("drain-end", format!("drain for {} ended with {err} instead of the no-address error", mac_str(&mac)), case.clone()).sig("part", "drain"));
         }
     }
-    (n, format!("drain:{shape}"), vs)
+    (n, format!("drain{}:{shape}", if outer { "+outer" } else { "" }), vs)
 }
 
 fn drain_part(rep: &mut Report, thorough: bool) -> (u64, u64, BTreeSet<String>) {
-    let ts = trees(thorough);
+    let ts: Vec<(Node, bool)> = trees(thorough).into_iter().flat_map(|t| [(t.clone(), false), (t, true)]).collect();
     let outs: Vec<(u64, String, Vec<Violation>)> = ts.par_iter().map(drain_case).collect();
     let mut n = 0;
     let mut classes = BTreeSet::new();
@@ -477,9 +487,10 @@ pub fn run(tier: &str, replay: Option<Value>) -> ! {
                 Err(e) => rep.machinery_error(format!("replay: {e}")),
             }
         } else if case["part"].as_str() == Some("drain") {
+            let outer = y.starts_with("---\naddresses:");
             for t in trees(true) {
-                if format!("---\ndhcp-policies:\n{}", t.yaml(4, true)) == y {
-                    for v in drain_case(&t).2 {
+                if y.ends_with(&format!("dhcp-policies:\n{}", t.yaml(4, true))) {
+                    for v in drain_case(&(t, outer)).2 {
                         rep.violation(v);
                     }
                     break;
